@@ -18,7 +18,8 @@
 #define MAXCAP 8
 static scpi_t ctx;
 static char ibuf[256];
-static scpi_error_t eq[MAXCAP];
+#define BIGCAP 300                /* random walks may use a queue larger than the explorations do (capacity 256: one byte does not count it) */
+static scpi_error_t eq[BIGCAP];
 static int cap = 1;
 
 static int srqv[32], srqn;
@@ -169,8 +170,8 @@ static void load_ops(const char * path) {
 typedef struct { scpi_t c; scpi_error_t q[MAXCAP]; } snap_t;
 typedef struct { unsigned short regs[40]; short wr, rd, count; short codes[MAXCAP]; size_t pos; } skey_t;
 
-static void take(snap_t * s) { s->c = ctx; memcpy(s->q, eq, sizeof eq); }
-static void restore(const snap_t * s) { ctx = s->c; memcpy(eq, s->q, sizeof eq); }
+static void take(snap_t * s) { s->c = ctx; memcpy(s->q, eq, sizeof s->q); }
+static void restore(const snap_t * s) { ctx = s->c; memcpy(eq, s->q, sizeof s->q); }
 static void mkkey(skey_t * k) {
     int i;
     memset(k, 0, sizeof *k);
